@@ -2,7 +2,7 @@
    streams of frames, chunking independence, layout, reported size, caller's fields, limits,
    and the length-prefixed helper. *)
 From Coq Require Import Arith ZArith NArith List Bool Lia ZifyNat ZifyN ZifyBool.
-From FV Require Import Generated.Consts Lib.NList Lib.BE Lib.Crc32 C01.Model C01.ProofsIO
+From FV Require Import Generated.Consts Lib.NList Lib.BE Lib.Crc32 C01.Model C01.RunLib C01.ProofsIO
      C01.ProofsBits C01.ProofsV1 C01.ProofsV2.
 Import ListNotations.
 Open Scope N_scope.
@@ -278,6 +278,40 @@ Proof.
   destruct (N.ltb_spec 255 (lenN (p_refers p)));
     destruct (N.ltb_spec max2 (hs2 + lenN (p_refers p) * 4 + lenN b)); split; intros; cbn;
     try reflexivity; lia.
+Qed.
+
+(* the closed form used by the limit probes of the correspondence check *)
+Lemma marshal_plain enc zip thr p :
+  lenN (body_bytes (p_body p)) <= thr ->
+  marshal_body enc zip thr false p = (body_bytes (p_body p), p_flag p).
+Proof.
+  intros H. unfold marshal_body.
+  destruct (N.ltb_spec thr (lenN (body_bytes (p_body p)))) as [X|_]; [lia|].
+  rewrite !andb_false_r. reflexivity.
+Qed.
+
+Lemma limit_predict_v1 enc zip thr p :
+  lenN (body_bytes (p_body p)) <= thr ->
+  w_ret (write_v1 enc zip thr false p)
+  = limit_predict 1 (lenN (p_refers p)) (lenN (body_bytes (p_body p))).
+Proof.
+  intros H. pose proof (write_v1_limit enc zip thr false p) as L. cbv zeta in L.
+  rewrite marshal_plain in L by assumption. cbn [fst] in L. destruct L as [L1 L2].
+  unfold limit_predict. cbn [Z.eqb].
+  destruct (N.ltb_spec max1 (hs1 + lenN (body_bytes (p_body p)))); [apply L1|apply L2]; assumption.
+Qed.
+
+Lemma limit_predict_v2 enc zip thr p :
+  lenN (body_bytes (p_body p)) <= thr ->
+  w_ret (write_v2 enc zip thr false p)
+  = limit_predict 2 (lenN (p_refers p)) (lenN (body_bytes (p_body p))).
+Proof.
+  intros H. pose proof (write_v2_limit enc zip thr false p) as L. cbv zeta in L.
+  rewrite marshal_plain in L by assumption. cbn [fst] in L. destruct L as [L1 L2].
+  unfold limit_predict, max_u8. cbn [Z.eqb].
+  destruct (N.ltb_spec 255 (lenN (p_refers p))) as [X|X]; [apply L1; left; assumption|].
+  destruct (N.ltb_spec max2 (hs2 + lenN (p_refers p) * 4 + lenN (body_bytes (p_body p)))) as [Y|Y];
+    [apply L1; right; assumption|apply L2; assumption].
 Qed.
 
 (* the caller's packet: only the flag may change, and only by the two marshalling bits *)
